@@ -912,6 +912,20 @@ impl Checker {
                     st.hit("c15_bound_checked");
                 }
             }
+            // C04: every search ends — no later than 1.5 s per node of the network plus 3 s after it was
+            // started (a search issued before the first bootstrap completion is started at that completion)
+            {
+                let bound = 1500 * MS * (sim.peers.len() + sim.reals.len()) as u128 + 3 * S + 2 * S;
+                for (sid, s) in t.searches.iter().enumerate() {
+                    let started = match t.completions.first() { Some(c) => s.0.max(*c), None => continue };
+                    match s.3 {
+                        Some(end) if end > started + bound => st.fail(case, line, &format!("[C04] node {k}: search {sid} issued at {} ended at {end}, later than 1.5 s per node + 3 s after its start at {started}", s.0)),
+                        None if now > started + bound => st.fail(case, line, &format!("[C04] node {k}: search {sid} issued at {} (started {started}) has not ended by {now}: every search must end within 1.5 s per node it was told about plus 3 s", s.0)),
+                        _ => {}
+                    }
+                    st.hit("c04_search_end_checked");
+                }
+            }
             // C16: every search of the truthful static network yields the stored peer and ends
             if let Some((_, peer)) = &self.expect_peer {
                 for (sid, s) in t.searches.iter().enumerate() {
